@@ -421,17 +421,37 @@ type c13Env struct {
 	col  *DatabaseCollectionWithUser
 	revs map[string]uint64
 	n    int
+	named bool // the database serves one named collection instead of _default._default
 }
 
-func c13NewEnv(t *testing.T) *c13Env {
+// named: the database serves ONE NAMED collection (scope.collection of the test bucket) instead of _default._default; the
+// principals then keep their grants, histories and invalidation sequences under collection_access.<scope>.<collection>
+func c13NewEnv(t *testing.T, named bool) *c13Env {
 	co := DefaultCacheOptions()
 	opts := DatabaseContextOptions{Scopes: GetScopesOptionsDefaultCollectionOnly(t), CacheOptions: &co,
 		ClientPartitionWindow: base.DefaultClientPartitionWindow} // production default (rest config): grant history is kept for 30 days
+	if named {
+		opts.Scopes = nil // SetupTestDBForBucketWithOptions picks one named collection of the test bucket
+	}
 	db, ctx := SetupTestDBWithOptions(t, opts)
 	db.DatabaseContext.AllowEmptyPassword = true
 	col, cctx := GetSingleDatabaseCollectionWithUser(ctx, t, db)
 	col.ChannelMapper = channels.NewChannelMapper(cctx, c13SyncFn, db.Options.JavascriptTimeout)
-	return &c13Env{t: t, db: db, ctx: cctx, col: col, revs: map[string]uint64{}}
+	if named && base.IsDefaultCollection(col.ScopeName, col.Name) {
+		t.Fatalf("c13: a named collection was requested but the database serves the default collection")
+	}
+	return &c13Env{t: t, db: db, ctx: cctx, col: col, revs: map[string]uint64{}, named: named}
+}
+
+// the explicit channels of an admin request, for the collection under test
+func (e *c13Env) princConfig(name string, set base.Set) *auth.PrincipalConfig {
+	cfg := &auth.PrincipalConfig{Name: &name}
+	if !e.named {
+		cfg.ExplicitChannels = set
+		return cfg
+	}
+	cfg.SetExplicitChannels(e.col.ScopeName, e.col.Name, set.ToArray()...)
+	return cfg
 }
 func (e *c13Env) close() { e.db.Close(e.ctx) }
 
@@ -486,6 +506,11 @@ type c13RawPrinc struct {
 	RoleHistory     auth.TimedSetHistory `json:"role_history"`
 	Deleted         bool                 `json:"deleted"`
 	Sequence        uint64               `json:"sequence"`
+	CollectionAccess map[string]map[string]*struct {
+		Channels        channels.TimedSet    `json:"all_channels"`
+		ChannelInvalSeq uint64               `json:"channel_inval_seq"`
+		ChannelHistory  auth.TimedSetHistory `json:"channel_history"`
+	} `json:"collection_access"`
 }
 
 func (e *c13Env) rawPrinc(user bool, name string) *c13RawPrinc {
@@ -501,6 +526,13 @@ func (e *c13Env) rawPrinc(user bool, name string) *c13RawPrinc {
 	var p c13RawPrinc
 	if err := json.Unmarshal(raw, &p); err != nil {
 		return nil
+	}
+	if e.named {
+		// the collection under test
+		p.Channels, p.ChannelInvalSeq, p.ChannelHistory = nil, 0, nil
+		if ca := p.CollectionAccess[e.col.ScopeName][e.col.Name]; ca != nil {
+			p.Channels, p.ChannelInvalSeq, p.ChannelHistory = ca.Channels, ca.ChannelInvalSeq, ca.ChannelHistory
+		}
 	}
 	return &p
 }
@@ -554,7 +586,7 @@ func (e *c13Env) do(tr *c13Truth, op c13Op) (rev string, err error) {
 		return rev, err
 	case "uchans":
 		name := "u"
-		_, _, err = e.db.DatabaseContext.UpdatePrincipal(e.ctx, &auth.PrincipalConfig{Name: &name, ExplicitChannels: e.chanSet(op.Set)}, true, true)
+		_, _, err = e.db.DatabaseContext.UpdatePrincipal(e.ctx, e.princConfig(name, e.chanSet(op.Set)), true, true)
 		return "", err
 	case "uroles":
 		name := "u"
@@ -566,7 +598,7 @@ func (e *c13Env) do(tr *c13Truth, op c13Op) (rev string, err error) {
 		return "", err
 	case "rchans":
 		name := c13RoleName(op.Who)
-		_, _, err = e.db.DatabaseContext.UpdatePrincipal(e.ctx, &auth.PrincipalConfig{Name: &name, ExplicitChannels: e.chanSet(op.Set)}, false, true)
+		_, _, err = e.db.DatabaseContext.UpdatePrincipal(e.ctx, e.princConfig(name, e.chanSet(op.Set)), false, true)
 		return "", err
 	case "delrole":
 		err = e.db.DatabaseContext.DeleteRole(e.ctx, c13RoleName(op.Who), false)
@@ -835,8 +867,12 @@ type c13CoqCase struct {
 
 func c13SinceString(s SequenceID) string { return s.String() }
 
+// a history whose first operation has kind "named" runs in a named collection
+func c13Named(ops []c13Op) bool { return len(ops) > 0 && ops[0].Kind == "named" }
+
 func c13Run(t *testing.T, ops []c13Op, emit bool) *c13Result {
-	e := c13NewEnv(t)
+	named := c13Named(ops)
+	e := c13NewEnv(t, named)
 	defer e.close()
 	res := &c13Result{stats: map[string]int{}}
 	tr := c13NewTruth()
@@ -864,6 +900,17 @@ func c13Run(t *testing.T, ops []c13Op, emit bool) *c13Result {
 	var prevCached uint64             // cached sequence at the previous pull
 	restamped := map[int]bool{}       // channels some rebuild kept but re-stamped with a later sequence (finding restamped-grant-loses-period)
 	restampedRoles := map[int]bool{}  // ... and roles of the user re-stamped the same way (RolesSince)
+	historyLost := map[int]bool{}     // channels whose history entries a role re-creation dropped (recreate_keeps_history)
+	// the signature of a failure about channel c: its own, unless a re-created role forgot the channel's history
+	lostSig := func(sig string, c int) string {
+		if !historyLost[c] {
+			return sig
+		}
+		if named {
+			return "recreated-role-history-lost/named-collection"
+		}
+		return sig + "/recreated-role-history-lost"
+	}
 	// root-cause bookkeeping for the end-to-end monitor
 	type jump struct{ T, S uint64 }
 	var jumps []jump                    // a page ended with a revocation row whose token is printed without its trigger
@@ -875,6 +922,9 @@ func c13Run(t *testing.T, ops []c13Op, emit bool) *c13Result {
 	explained := map[uint64]string{}   // document -> root cause already established for a mismatch that persists
 	sawRevoked, sawBackfill := false, false
 	for i, op := range ops {
+		if op.Kind == "named" {
+			continue
+		}
 		if op.Kind != "pull" {
 			if op.Kind == "delrole" {
 				// load first so that the persisted state is valid and the delete's history update can be observed
@@ -926,6 +976,38 @@ func c13Run(t *testing.T, ops []c13Op, emit bool) *c13Result {
 				rawBefore = e.rawPrinc(false, c13RoleName(op.Who))
 			}
 			rev, err := e.do(tr, op)
+			// recreate_keeps_history (Go reflection of C13_recreated_role_keeps_history): a role created again through the
+			// admin path (db.UpdatePrincipal -> NewRoleNoChannels) over its soft-deleted predecessor keeps every channel
+			// history entry of the predecessor, in the collection under test -- otherwise the channels the old role
+			// granted are never reported revoked to the users who still hold the role
+			if op.Kind == "rchans" && err == nil && rawBefore != nil && rawBefore.Deleted {
+				if rawAfter := e.rawPrinc(false, c13RoleName(op.Who)); rawAfter != nil && !rawAfter.Deleted {
+					hb, err1 := c13History(rawBefore.ChannelHistory, c13ChanID)
+					ha, err2 := c13History(rawAfter.ChannelHistory, c13ChanID)
+					if err1 == nil && err2 == nil {
+						for _, b := range hb {
+							kept := c13FindHist(ha, b.Name)
+							ok := len(kept) >= len(b.Entries)
+							for k := 0; ok && k < len(b.Entries); k++ {
+								ok = kept[k] == b.Entries[k]
+							}
+							if !ok && int(b.Name) >= 1 {
+								historyLost[int(b.Name)-1] = true
+								rsig := "recreated-role-history-lost"
+								if named {
+									rsig += "/named-collection"
+								}
+								fail(i, "recreate_keeps_history", rsig, fmt.Sprintf("op %d: role %s was soft-deleted with channel history %v for channel %s; re-created through UpdatePrincipal its history for that channel is %v (collection %s.%s)", i, c13RoleName(op.Who), b.Entries, c13ChanNames[b.Name-1], kept, e.col.ScopeName, e.col.Name))
+							}
+						}
+						if emit {
+							res.cases = append(res.cases, c13CoqCase{kind: "recreate_role", nt: len(hb) > 0,
+								coq:  fmt.Sprintf("(CRecreate %s %s %s)", cqBool(named), c13HistCoq(hb), c13HistCoq(ha)),
+								desc: map[string]any{"named_collection": named, "history_of_deleted_role": hb, "history_after_recreate": ha}})
+						}
+					}
+				}
+			}
 			if rawBefore != nil && rawBefore.ChannelInvalSeq != 0 && !rawBefore.Deleted {
 				var rawAfter *c13RawPrinc
 				if op.Kind == "rchans" {
@@ -1057,7 +1139,7 @@ func c13Run(t *testing.T, ops []c13Op, emit bool) *c13Result {
 					}
 				}
 				if !found {
-					fail(i, "revoked_complete", "lost-channel-not-reported", fmt.Sprintf("op %d: channel %s was held at the previous pull, is not held now, and is not reported by RevokedCollectionChannels(since=%s): %v", i, c13ChanNames[c], since, revP))
+					fail(i, "revoked_complete", lostSig("lost-channel-not-reported", c), fmt.Sprintf("op %d: channel %s was held at the previous pull, is not held now, and is not reported by RevokedCollectionChannels(since=%s): %v", i, c13ChanNames[c], since, revP))
 				}
 			}
 		}
@@ -1097,6 +1179,8 @@ func c13Run(t *testing.T, ops []c13Op, emit bool) *c13Result {
 					}
 					if explained {
 						sig = "stale-doc/restamped-grant-loses-period"
+					} else {
+						sig = lostSig(sig, c)
 					}
 					fail(i, "granted_periods_cover", sig, fmt.Sprintf("op %d: channel %s was held at the previous pull (cached sequence %d) but no period returned by CollectionChannelGrantedPeriods now contains %d: %v", i, c13ChanNames[c], prevCached, prevCached, c13SortPeriods(per)))
 				}
@@ -1432,7 +1516,14 @@ func c13Run(t *testing.T, ops []c13Op, emit bool) *c13Result {
 										covered = true
 									}
 								}
-								if !covered {
+								if !covered && historyLost[ci] {
+									// the history entries of the channel were dropped when a deleted role was created again
+									why = "/recreated-role-history-lost"
+									if named {
+										why = "/recreated-role-history-lost/named-collection"
+									}
+									cause = fmt.Sprintf(" [the user held channel %s at the previous completed pull (cached sequence %d) through a role that was soft-deleted and created again since; the re-created role has lost the deleted role's history of the channel, so the periods CollectionChannelGrantedPeriods returns (%v) do not contain %d and RevokedCollectionChannels does not report the channel]", c13ChanNames[ci], cachedAtCaughtUp, c13SortPeriods(per), cachedAtCaughtUp)
+								} else if !covered {
 									why = "/restamped-grant-loses-period"
 									cause = fmt.Sprintf(" [the user held channel %s at the previous completed pull (cached sequence %d) and d%d was in it; the channel is lost now, but the periods CollectionChannelGrantedPeriods returns for it (%v) do not contain %d: a rebuild re-stamped the kept grant with a later sequence when its earliest source went away, and calculateHistory records nothing for a kept grant]", c13ChanNames[ci], cachedAtCaughtUp, d, c13SortPeriods(per), cachedAtCaughtUp)
 								}
@@ -1458,7 +1549,11 @@ func c13Run(t *testing.T, ops []c13Op, emit bool) *c13Result {
 					} else {
 						explained[d] = why
 					}
-					fail(i, "client_matches_visible", "stale-doc"+why, fmt.Sprintf("op %d: client still holds d%d which the user cannot see (document channels %v live=%v, user channels %v): never announced as removed / revoked%s", i, d, td.chans, td.live, c13SortedKeys(held), cause))
+					sdSig := "stale-doc" + why
+					if why == "/recreated-role-history-lost/named-collection" {
+						sdSig = "recreated-role-history-lost/named-collection" // one finding, one signature
+					}
+					fail(i, "client_matches_visible", sdSig, fmt.Sprintf("op %d: client still holds d%d which the user cannot see (document channels %v live=%v, user channels %v): never announced as removed / revoked%s", i, d, td.chans, td.live, c13SortedKeys(held), cause))
 				}
 			}
 			for d := range explained {
@@ -1546,8 +1641,12 @@ func c13Run(t *testing.T, ops []c13Op, emit bool) *c13Result {
 		if docGrants {
 			kind = "system_doc_grants"
 		}
+		ctor := "CSys"
+		if named {
+			kind, ctor = "system_named_collection", "CSysN"
+		}
 		res.cases = append(res.cases, c13CoqCase{kind: kind, nt: res.nontri,
-			coq:  "(CSys " + cqList(sops) + " " + cqList(res.obs) + ")",
+			coq:  "(" + ctor + " " + cqList(sops) + " " + cqList(res.obs) + ")",
 			desc: map[string]any{"ops": ops, "pulls": res.pulls}})
 	}
 	return res
@@ -1790,6 +1889,66 @@ func (g *c13Gen) next() c13Op {
 	}
 }
 
+// a role the user keeps holding is soft-deleted and created again through the admin path (UpdatePrincipal ->
+// NewRoleNoChannels) between two pulls, with or without its former channels; documents of those channels change, move
+// or stay in between; pulls are un-limited or paged
+func c13RoleRecreateHistory(r *vRand) []c13Op {
+	var ops []c13Op
+	sub := func(from, cnt, pct int) []int {
+		var out []int
+		for i := from; i < from+cnt; i++ {
+			if r.Chance(pct) {
+				out = append(out, i)
+			}
+		}
+		return out
+	}
+	first := sub(1, 3, 60)
+	if len(first) == 0 {
+		first = []int{1}
+	}
+	ops = append(ops, c13Op{Kind: "rchans", Who: 1, Set: first}, c13Op{Kind: "uroles", Set: []int{1}})
+	if r.Chance(30) {
+		ops = append(ops, c13Op{Kind: "uchans", Set: sub(1, 3, 30)})
+	}
+	for d := 1; d <= 3; d++ {
+		ch := sub(1, 3, 50)
+		if len(ch) == 0 {
+			ch = []int{first[0]}
+		}
+		ops = append(ops, c13Op{Kind: "put", Doc: d, Chans: ch})
+	}
+	ops = append(ops, c13Op{Kind: "pull"})
+	rounds := 1 + r.Intn(2)
+	for k := 0; k < rounds; k++ {
+		if r.Chance(40) {
+			ops = append(ops, c13Op{Kind: "put", Doc: 1 + r.Intn(3), Chans: sub(1, 3, 50)})
+		}
+		ops = append(ops, c13Op{Kind: "delrole", Who: 1})
+		if r.Chance(25) {
+			ops = append(ops, c13Op{Kind: "put", Doc: 1 + r.Intn(3), Chans: sub(1, 3, 50)})
+		}
+		if r.Chance(15) {
+			ops = append(ops, c13Op{Kind: "pull", Limit: r.Intn(3)})
+		}
+		ops = append(ops, c13Op{Kind: "rchans", Who: 1, Set: sub(1, 3, 35)})
+		if r.Chance(30) {
+			ops = append(ops, c13Op{Kind: "put", Doc: 1 + r.Intn(3), Chans: sub(1, 3, 50)})
+		}
+		lim := 0
+		if r.Chance(30) {
+			lim = 1 + r.Intn(2)
+		}
+		ops = append(ops, c13Op{Kind: "pull", Limit: lim})
+		if lim > 0 {
+			ops = append(ops, c13Op{Kind: "pull", Limit: lim}, c13Op{Kind: "pull"})
+		}
+	}
+	return ops
+}
+
+func c13InNamed(ops []c13Op) []c13Op { return append([]c13Op{{Kind: "named"}}, ops...) }
+
 // histories in the domain of the end-to-end theorem: un-limited pulls, mostly sync-function grants (to the user, to
 // roles, role() grants), few channels so that several sources of the same channel overlap, roles deleted and re-created
 func c13DocGrantHistory(r *vRand) []c13Op {
@@ -1910,6 +2069,12 @@ func c13Corpus() map[string][]c13Op {
 		"doc_grant_moved_between_docs":   {P(1, 1), {Kind: "put", Doc: 2, Chans: []int{2}, Acc: []c13Grant{{V: []int{1}}}}, pull(0), {Kind: "put", Doc: 3, Chans: []int{2}, Acc: []c13Grant{{V: []int{1}}}}, P(2, 2), P(1, 1), pull(0), {Kind: "del", Doc: 3}, pull(0)},
 		// channel A from two sources of the same principal (a granting document, then an explicit grant): when the document
 		// stops granting, the rebuild keeps A but re-stamps it with the later sequence; the period before is in no history
+		// a role the user keeps holding is soft-deleted and created again (admin path) between two pulls
+		"role_recreated_between_pulls":  {rch(1, 1), uro(1), P(1, 1), pull(0), {Kind: "delrole", Who: 1}, rch(1), pull(0)},
+		"role_recreated_other_channel":  {rch(1, 1), uro(1), P(1, 1), P(2, 2), pull(0), {Kind: "delrole", Who: 1}, rch(1, 2), pull(0)},
+		"role_recreated_doc_moved":      {rch(1, 1), uro(1), P(1, 1), pull(0), P(1, 2), {Kind: "delrole", Who: 1}, rch(1), pull(0)},
+		"role_recreated_same_channels":  {rch(1, 1), uro(1), P(1, 1), pull(0), {Kind: "delrole", Who: 1}, rch(1, 1), P(1, 2), pull(0), rch(1), pull(0)},
+		"role_recreated_twice":          {rch(1, 1, 2), uro(1), P(1, 1), P(2, 2), pull(0), {Kind: "delrole", Who: 1}, rch(1, 2), {Kind: "delrole", Who: 1}, rch(1), pull(0)},
 		// the same through the user's ROLE set: role r2 reaches the user from a role() grant of d2 (stamped 2) and from an
 		// admin grant (stamped 6); d2 is deleted, the rebuild keeps r2 but re-stamps it 6
 		"restamped_role_loses_period": {{Kind: "put", Doc: 2, Chans: []int{2}, Rol: []c13Grant{{V: []int{2}}}}, rch(2, 1), P(1, 1), pull(0), P(1, 2), uro(2), {Kind: "del", Doc: 2}, rch(2), pull(0)},
@@ -1942,7 +2107,7 @@ func c13HistJSON(h map[string][][2]uint64) map[string]any {
 }
 
 func c13Synthetic(t *testing.T, rec *vRecorder, rnd *vRand, n int) {
-	e := c13NewEnv(t)
+	e := c13NewEnv(t, false)
 	defer e.close()
 	a := e.db.Authenticator(e.ctx)
 	chanNames := []string{"*", "!", "A", "B", "C", "D"}
@@ -2325,6 +2490,12 @@ func TestVerifC13(t *testing.T) {
 		}
 		history("corpus", "corpus_"+n, corpus[n], true)
 	}
+	// the same scenarios with the database serving a named collection
+	if os.Getenv("C13_CORPUS_DEBUG") == "" {
+		for _, n := range names {
+			history("corpus_named", "corpus_named_"+n, c13InNamed(corpus[n]), true)
+		}
+	}
 	if os.Getenv("C13_CORPUS_DEBUG") != "" {
 		return
 	}
@@ -2386,6 +2557,14 @@ func TestVerifC13(t *testing.T) {
 	}
 	for i := 0; i < nRand/2; i++ {
 		history("doc_grants", "doc_grants", c13DocGrantHistory(rnd), true)
+	}
+	for i := 0; i < vBudget(10, 100); i++ {
+		h := c13RoleRecreateHistory(rnd)
+		history("role_recreate", "role_recreate", h, true)
+		history("role_recreate_named", "role_recreate_named", c13InNamed(h), true)
+	}
+	for i := 0; i < vBudget(6, 80); i++ {
+		history("random_named", "random_named", c13InNamed(c13RandomHistory(rnd, i%2 == 1)), true)
 	}
 
 	// (iv) the component functions on synthetic principals
